@@ -375,6 +375,10 @@ func (g *GcsEmu) handleGcsUpdateMetadataRequest(ctx context.Context, baseUrl Htt
 		if err != nil {
 			return fmtErrorfCode(http.StatusBadRequest, "failed to parse request: %w", err)
 		}
+		if obj == nil {
+			// a JSON body of "null" decodes to a nil object
+			return fmtErrorfCode(http.StatusBadRequest, "failed to parse request: empty metadata")
+		}
 
 		if err := g.store.UpdateMeta(bucket, filename, obj, metagen+1); err != nil {
 			return fmt.Errorf("failed to update attrs of %s/%s: %w", bucket, filename, err)
